@@ -132,6 +132,23 @@ def run_case(seed, many=False):
                 pfm.levels[0].data[b][..., c][cov] = 7919
         lsx = lvls_sx(pfm)
     count(f"covered level-0 cells hold NaN / inf / 1e300={poisoned}")
+    # a field that is zero everywhere, or a whole number of tens everywhere on a unit-volume grid: integrals 0 and n0 (n x 10)
+    rz = random.Random(seed * 2287 + 37)
+    flat = None
+    if not poisoned and rz.random() < 0.2:
+        flat = rz.randrange(len(pf.fields))
+        if pf.fields[flat] == 'volFrac':
+            flat = None
+        else:
+            val = rz.choice([0.0, 0.0, 10.0, 250.0])
+            for lev in pf.levels:
+                for d in lev.data:
+                    d[..., flat] = val
+            if val:
+                pf.geo_low, pf.dx0 = [0.0] * 3, [1.0] * 3
+                pf.meta['geo'] = 'exact/unit'
+            lsx = lvls_sx(pf)
+    count(f"a field that is the same whole number everywhere={flat is not None}")
     gen.write_plotfile(pf, path)
     sizes = sorted({h - l + 1 for lev in pf.levels for lo, hi in lev.boxes for l, h in zip(lo, hi)})
     count(f"levels={pf.nlevels}")
@@ -142,6 +159,8 @@ def run_case(seed, many=False):
     shared = {}
     for k in range(3):
         field = rng.choice(keys)
+        if flat is not None and k == 0:
+            field = keys[flat]
         comp = keys.index(field)
         limit_arg = rng.choice([None, None] + list(range(pf.nlevels)) + [pf.nlevels])
         if poisoned and limit_arg == 0:
@@ -149,7 +168,7 @@ def run_case(seed, many=False):
         L = pf.nlevels - 1 if limit_arg is None else min(limit_arg, pf.nlevels - 1)
         use_vol = rng.random() < 0.5
         vcomp = keys.index('volFrac') if (use_vol and 'volFrac' in keys) else None
-        via_cli = rng.random() < 0.25
+        via_cli = rng.random() < 0.25 or (flat is not None and k == 0)
         count(f"limit={'none' if limit_arg is None else ('finest+' if limit_arg >= pf.nlevels - 1 else 'coarser')}")
         count(f"volfrac={'on' if vcomp is not None else ('asked-absent' if use_vol else 'off')}")
         count(f"via={'cli' if via_cli else 'api'}")
